@@ -11,7 +11,7 @@ def run(tier, replay=None):
                 '(object sizes 48 B .. 4x(buffer+container), container below/at/above buffer, queue capacity 1/2/3/10, level 0/6, shipped '
                 'limits in 1 of 16) x seeded schedules (random walk, PCT d=1..3, starve/favour each thread, spurious wake-ups) in serial '
                 'mode; verdict = no deadlock (no thread enabled, not all finished), step budget not exceeded, every session thread '
-                'finished when close()/~File returns; distinct = distinct schedule signatures (summed per worker process)')
+                'finished when close()/~File returns; plus a systematic leg: small sessions (1-2 objects, tiny buffers, read/early-close/write) with EVERY schedule of at most 1 (quick) / 2 (thorough) preemptions explored depth-first; distinct = distinct schedule signatures (summed per worker process)')
     res.assumptions = ['interleavings explored at synchronisation calls only (atomics are not scheduling points)',
                        'random/PCT exploration, not exhaustive']
     blocked = st.get('blocked_at', {})
